@@ -13,7 +13,7 @@ use bsv_core::common::{Info, StatsSnap, snap_any};
 use bsv_core::common::{Rec, pick};
 use bsv_cells::cells;
 use crate::coll_api::*;
-use bsv_core::elem::{Elem, Tr, Tr32, TrZ, reg_reset, with_reg};
+use bsv_core::elem::{Elem, Tr, Tr32, TrZ, reg_reset, tick, with_reg};
 use bsv_core::runner::{CaseReport, CaseResult, Engine, Failure, Marker, panic_message};
 use bsv_core::talloc::{self, FaultPlan, GrantPolicy, with_ctx};
 
@@ -571,7 +571,43 @@ fn new_shared<'a: 'b, 'b, T: Elem + Clone + PartialEq>(
 ) -> Option<Box<dyn VK<'b, T> + 'b>> {
     Some(match kind % 3 {
         0 => {
-            let b = a.try_alloc_iter_exact(init.iter().map(|v| T::make(*v))).ok()?;
+            // the slice-producing allocation helpers (C06: a panicking Clone / closure / iterator in the middle
+            // loses and double-drops nothing; C08: the slice holds the items in order)
+            let mk = || init.iter().map(|v| T::make(*v)).collect::<Vec<T>>();
+            let all_equal = init.windows(2).all(|w| w[0] == w[1]);
+            let b: BumpBox<'b, [T]> = match cap % 10 {
+                0 => a.try_alloc_iter_exact(init.iter().map(|v| T::make(*v))).ok()?,
+                1 => {
+                    let src = mk();
+                    a.try_alloc_slice_clone(&src).ok()?
+                }
+                2 => {
+                    let mut i = 0;
+                    a.try_alloc_slice_fill_with(init.len(), || {
+                        tick("fill_with");
+                        i += 1;
+                        T::make(init[i - 1])
+                    })
+                    .ok()?
+                }
+                3 if all_equal && !init.is_empty() => a.try_alloc_slice_fill(init.len(), T::make(init[0])).ok()?,
+                4 => a.try_alloc_slice_move(mk()).ok()?,
+                5 => a.try_alloc_iter(hint_iter::<T>(init, cap as u8 / 10)).ok()?,
+                6 => {
+                    let src = mk();
+                    a.try_alloc_uninit_slice::<T>(init.len()).ok()?.init_clone(&src)
+                }
+                7 => {
+                    let mut i = 0;
+                    a.try_alloc_uninit_slice::<T>(init.len()).ok()?.init_fill_with(|| {
+                        tick("init_fill_with");
+                        i += 1;
+                        T::make(init[i - 1])
+                    })
+                }
+                8 => a.try_alloc_uninit_slice::<T>(init.len()).ok()?.init_fill_iter(hint_iter::<T>(init, 0)),
+                _ => a.try_alloc_uninit_slice::<T>(init.len()).ok()?.init_move(mk()),
+            };
             Box::new(KBoxed(b))
         }
         1 => {
